@@ -30,6 +30,7 @@ FIXED = [
     ("C10", "F38", "the loky executor manager is woken up again after workers are (re)spawned", "all loky workers exited on idle timeout, a single-task call respawns them after the manager thread went back to wait() on the old (empty) sentinel set: the death of the fresh worker was noticed only at the next unrelated event (idle timeout 300 s): the call hung"),
     ("C12", "F45", "a function validated against one Memory location is no longer trusted at another location", "two cache locations in one process: after Memory(A).cache(f)(x) had validated f (A empty), Memory(B).cache(f)(x) skipped the comparison with the source stored in B (_FUNCTION_HASHES fast path) and returned the value cached there by the previous version of f"),
     ("C17", "F46", "the loky backend is re-created after an abort with the settings of its Parallel object", "with Parallel(n_jobs=2, backend='loky', max_nbytes=10, temp_folder=X, mmap_mode='c') as p: after a call in which a task raised, LokyBackend.abort_everything reconfigured the executor without Parallel._backend_kwargs: the following calls on p ran with the default max_nbytes / temp folder / mmap_mode / context"),
+    ("C17", "F47", "a loky executor created for another temp_folder is not reused", "Parallel(n_jobs=2, temp_folder=X) after an earlier loky call with otherwise equal settings reused the running executor, whose temporary-folder manager keeps the folder it was created with: arrays were memmapped under the earlier call's folder (/dev/shm) instead of X, although Parallel._backend_kwargs['temp_folder'] showed X"),
     ("C19", "F28", "a contiguous view of a memmap is re-mapped in the workers with the memory order of the view", "transposed / F-ordered contiguous memmap views presented wrong values to process workers"),
 ]
 
